@@ -538,7 +538,7 @@ def rule_qmin(ctx, kernels=None, rule="qmin"):
         else:
             ctx.ob(rule, k, loops[0], "%s (initial)" % acc, "accumulator starts at the ceiling", None, "initial value not understood")
         # (4) never rises inside the loop
-        assigns = [e for e in w.events if e.kind == "assign" and e.name == acc and e.loops and e.loops[-1] is lp]
+        assigns = [e for e in w.events if e.kind == "assign" and e.name == acc and e.loops and e.loops[-1].node is lp.node]
         for g in group_by_node(assigns):
             res = []
             for e in g:
@@ -551,6 +551,7 @@ def rule_qmin(ctx, kernels=None, rule="qmin"):
         # (5) at the end of every iteration acc <= the key's cell of this row, addressed through the hash of this row
         res = []
         for le in lends:
+            lp = le.loops[-1]
             evs = [x for x in on_path(w.events, le) if x.loops and x.loops[-1] is lp]
             reads = [x for x in evs if x.kind == "read" and x.arr.name == table]
             a = le.env.get(acc)
